@@ -37,6 +37,10 @@ type iterator struct {
 	closer io.Closer
 
 	iteratorOptions IteratorOptions
+
+	// singleSource is true when, over the iterator's whole range, only
+	// one source (a segment or the lowerLevelIter) has any entries.
+	singleSource bool
 }
 
 // A cursor rerpresents a logical entry position inside a segment in a
@@ -191,6 +195,11 @@ func (ss *segmentStack) startIterator(
 	// Heap-ify the cursors.
 
 	heap.Init(iter)
+
+	// NOTE: This must be determined before any cursor gets consumed
+	// (see below), as exhausted cursors are dropped but a later
+	// SeekTo() backwards needs them again.
+	iter.singleSource = len(iter.cursors) == 1
 
 	if !iteratorOptions.IncludeDeletions {
 		entryEx, _, _, _ := iter.CurrentEx()
@@ -453,7 +462,7 @@ func (iter *iterator) Pop() interface{} {
 // when there's only a single segment, then the heap can be avoided by
 // using a simpler, faster iteratorSingle implementation.
 func (iter *iterator) optimize() (Iterator, error) {
-	if len(iter.cursors) != 1 {
+	if !iter.singleSource || len(iter.cursors) != 1 {
 		return iter, nil
 	}
 
